@@ -144,4 +144,125 @@ theorem union_str_iff (O : Oracle) (ts : List Ty) (s : String)
     · exact Or.inl (Or.inl (Or.inl ⟨t, hm, h⟩))
     · exact Or.inl (Or.inr ⟨t, hm, h⟩)
 
+
+/-! ### arguments with a default -/
+
+theorem checkTypeD_none (O : Oracle) (t : Ty) (v : Val) : checkTypeD O t .none v = checkType O t v := by
+  unfold checkTypeD checkType
+  simp [adaptD]
+
+theorem pyEq_str_left {s : String} {d : Val} (h : pyEq (.str s) d = true) : d = .str s := by
+  cases d <;> simp [pyEq] at h
+  rw [h]
+
+/-- where the result of `_check_type` comes from when the argument has a default: from the adapter, or — only
+    for a value that is a STRING — it is that string, equal to the default (the early return) -/
+theorem checkTypeD_result (O : Oracle) (t : Ty) (d : Val) (v w : Val) (h : checkTypeD O t (some d) v = .ok w) :
+    (∃ orig val, adapt O false orig t val = .ok w) ∨ (∃ s, v = .str s ∧ w = .str s ∧ d = .str s) := by
+  unfold checkTypeD at h
+  simp only at h
+  have dead : ∀ e, adapt O false (origOf v) t (parseValueOrConfig O v) = .error e →
+      isValidString t (parseValueOrConfig O v) = false := by
+    intro e he
+    cases hv : isValidString t (parseValueOrConfig O v) with
+    | false => rfl
+    | true =>
+      have := isValidString_isOk O (origOf v) t _ hv
+      rw [he] at this; simp at this
+  cases ha : adapt O false (origOf v) t (parseValueOrConfig O v) with
+  | ok w' => simp [ha] at h; subst h; exact Or.inl ⟨_, _, ha⟩
+  | error e =>
+    have hd := dead e ha
+    cases e with
+    | type => simp [ha, hd] at h
+    | value =>
+      simp only [ha, hd] at h
+      cases ho : origOf v with
+      | none => simp [ho] at h
+      | some s =>
+        have hv : v = .str s := by cases v <;> simp [origOf] at ho; rw [ho]
+        simp only [ho] at h
+        cases hb : adaptD O false (some s) (some d) t (.str s) with
+        | error e' => simp [hb] at h
+        | ok w' =>
+          simp [hb] at h; subst h
+          unfold adaptD at hb
+          simp only at hb
+          split at hb
+          · rename_i hc
+            simp only [Bool.and_eq_true] at hc
+            simp at hb; subst hb
+            exact Or.inr ⟨s, hv, rfl, pyEq_str_left hc.2⟩
+          · exact Or.inl ⟨_, _, hb⟩
+
+/-- soundness with a default: when the default itself conforms, every result conforms -/
+theorem checkTypeD_sound (O : Oracle) (ll lk : Bool) (t : Ty) (d v w : Val)
+    (hl : ll = false → litStrOnly t = true) (hk : lk = false → strKeys (parseValueOrConfig O v) = true)
+    (hd : confL ll lk t d = true)
+    (h : checkTypeD O t (some d) v = .ok w) : confL ll lk t w = true := by
+  rcases checkTypeD_result O t d v w h with ⟨orig, val, ha⟩ | ⟨s, _, rfl, rfl⟩
+  · -- from the adapter: as without a default
+    unfold checkTypeD at h
+    simp only at h
+    cases ha1 : adapt O false (origOf v) t (parseValueOrConfig O v) with
+    | ok w' => simp [ha1] at h; subst h; exact sound_gen O ll lk t _ _ _ hl hk ha1
+    | error e =>
+      have hdead : isValidString t (parseValueOrConfig O v) = false := by
+        cases hv : isValidString t (parseValueOrConfig O v) with
+        | false => rfl
+        | true =>
+          have := isValidString_isOk O (origOf v) t _ hv
+          rw [ha1] at this; simp at this
+      cases e with
+      | type => simp [ha1, hdead] at h
+      | value =>
+        simp only [ha1, hdead] at h
+        cases ho : origOf v with
+        | none => simp [ho] at h
+        | some s =>
+          simp only [ho] at h
+          cases hb : adaptD O false (some s) (some d) t (.str s) with
+          | error e' => simp [hb] at h
+          | ok w' =>
+            simp [hb] at h; subst h
+            unfold adaptD at hb
+            simp only at hb
+            split at hb
+            · rename_i hc
+              simp only [Bool.and_eq_true] at hc
+              simp at hb; subst hb
+              rw [← pyEq_str_left hc.2]; exact hd
+            · exact sound_gen O ll lk t _ _ _ hl (fun _ => strKeys_str s) hb
+  · exact hd
+
+/-- values of the same scalar kind as the default (no `True == 1 == 1.0` confusion) -/
+def noKindConfusion : Val → Val → Bool
+  | .str _, .str _ => true
+  | .int _, .int _ => true
+  | .bool _, .bool _ => true
+  | .flt a, .flt b => a == b
+  | _, _ => false
+
+theorem pyEq_sameKind {v d : Val} (hk : noKindConfusion v d = true) (he : pyEq v d = true) : v = d := by
+  cases v <;> cases d <;> simp [noKindConfusion] at hk
+  · cases ‹Bool› <;> cases ‹Bool› <;> simp [pyEq, numOf] at he <;> rfl
+  · simp [pyEq, numOf] at he; rw [he]
+  · rw [hk]
+  · simp [pyEq] at he; rw [he]
+
+/-- the early return itself (`adapt_typehints(val, T, default=d)`), whoever calls it: sound when the default
+    conforms and the value is of the default's own kind -/
+theorem adaptD_sound (O : Oracle) (ll lk : Bool) (t : Ty) (orig : Option String) (d v w : Val)
+    (hl : ll = false → litStrOnly t = true) (hk : lk = false → strKeys v = true)
+    (hd : confL ll lk t d = true) (hn : isSBIF v = true → pyEq v d = true → noKindConfusion v d = true)
+    (h : adaptD O false orig (some d) t v = .ok w) : confL ll lk t w = true := by
+  unfold adaptD at h
+  simp only at h
+  split at h
+  · rename_i hc
+    simp only [Bool.and_eq_true] at hc
+    simp at h; subst h
+    rw [pyEq_sameKind (hn hc.1 hc.2) hc.2]; exact hd
+  · exact sound_gen O ll lk t orig v w hl hk h
+
 end Jap.Adapt
